@@ -248,6 +248,27 @@ type SOpt struct {
 	L  []int    `json:"l,string"`
 }
 
+// Dup has names that conflict at its own level (hidden there); when it is embedded, a field of the
+// same name one level up is still the single shallowest candidate and must stay visible.
+type Dup struct {
+	A  int    `json:"X"`
+	B  int    `json:"X"`
+	K  int    `json:"k"`
+	K2 string `json:"k"`
+	Y  int
+	Z  int
+}
+type SE12 struct {
+	X int
+	Dup
+	K string `json:"k"`
+}
+type SE13 struct {
+	EmbA
+	Dup
+	*SE12
+}
+
 // ---- embedding
 
 type EmbA struct {
@@ -392,6 +413,9 @@ func init() {
 	reg(ArrTwice{})
 	reg(MArrFirst{})
 	reg(SE10{})
+	reg(Dup{})
+	reg(SE12{})
+	reg(SE13{})
 	reg(SE11{})
 	reg(SOpt{})
 	Corpus["Shape"] = shapeType
